@@ -111,6 +111,8 @@ Form(enc, it) ==
     [] it.type = "TextString" -> [lex |-> "text", class |-> it.v]
     [] it.type = "ByteString" -> [lex |-> "hex-bytes", class |-> it.v]
     [] it.type = "DateTime" -> [lex |-> "rfc3339", at |-> it.v.at]
+    \* (an Interval is a whole number of seconds: the driver hands the writers durations with a fraction of a second, too; the form is
+    \* that of the whole seconds in every encoding)
     [] it.type = "Interval" -> [lex |-> IF enc = "json" THEN "number" ELSE "dec", uint32 |-> it.v]
     [] it.type = "Bitmask" -> [lex |-> "mask", sep |-> IF enc = "json" THEN "|" ELSE " ", tokens |-> MaskTokens(it.v), mtag |-> it.v.mtag]
 
